@@ -16,7 +16,7 @@ LEVEL = 'model_checking'
 ENGINE = 'custom'
 DRIVER = ('vf.ref.store_model', 'driver')
 ASSUMPTIONS = [
-    'one store path per history, 3-point trajectories, cache classes: tiny (2 trajectories fit) and 64 MB',
+    'one store path per history (single-file layout; a second exploration uses base + associated file), 3-point trajectories, cache classes: tiny (2 trajectories fit) and 64 MB',
     'TrajectoryStore.active_in_thread reset by the harness before each history',
     'states deduplicated by (model state, LRU residency order, index_stale, _next_index, indexable)',
     'successors of a violating state are not expanded',
@@ -32,7 +32,16 @@ def run(tier, seed):
     alpha, maxt, depth, ualpha, udepth = BOUNDS[tier]
     a = hist.explore(DRIVER, (alpha, False, maxt), depth, dedup=True, seed=seed, label='dedup')
     b = hist.explore(DRIVER, (ualpha, False, 2), udepth, dedup=False, seed=seed, label='undedup')
-    return coverage(a, b, depth, udepth), a['violations'] + b['violations']
+    # the same list model with every trajectory split over a base and an associated file, plus
+    # additions rejected for a species the associated file has no slot for
+    adepth = 8 if tier == 'quick' else 11
+    c = hist.explore(DRIVER, ('c07a', False, 3 if tier == 'quick' else 4, 'assoc'), adepth, dedup=True, seed=seed, label='assoc-layout')
+    cov = coverage(a, b, depth, udepth)
+    cov['states'] += c['states']
+    cov['transitions'] += c['transitions']
+    cov['traces_validated_against_impl'] += c['traces']
+    cov['associated_layout_states'] = c['states']
+    return cov, a['violations'] + b['violations'] + c['violations']
 
 
 def coverage(a, b, depth, udepth):
